@@ -3,6 +3,7 @@ IORESULT (after every partial-transfer call whose buffer argument is base+cursor
 never by the requested count), COMPLETE (a received Message is handed up only when the cursor has reached the end of its buffer),
 FRAME (writer and readers of the 8-byte stream frame use the same offsets for length and encoding).  Everything that depends on where the cuts fall is not decided."""
 import re
+from msa import guards as G
 from msa import pair as P
 from msa import ast as A
 from msa import cfg as C
@@ -135,6 +136,70 @@ def stream_carry_instances(f):
                     packet = True
             out.append((vd, h, defs[0][0], packet))
     return out
+
+
+def queue_ends_rule(res, fx):
+    """the C mini gateway keeps its outgoing buffers in a singly linked list with a head (_curOutput) and a tail (_outputTail): when the head advances past the last buffer the tail must be
+    cleared, or the next MGAddOutgoingMessage() appends behind a freed buffer and never sets the head — every later Message is lost"""
+    res.rule('QUEUE-ENDS', 'in MiniMessageGateway.c a function that advances _curOutput to the next-pointer of the buffer it frees also sets _outputTail to NULL on the edge where that '
+                           'next-pointer is NULL (unless it frees the whole gateway)', floor=1)
+    n = 0
+    for f in sorted((g for g in fx.funcs.values() if g.full and g.file.endswith('minimessage/MiniMessageGateway.c')), key=lambda g: g.line):
+        adv = []
+        for w in f.walk():
+            if w['k'] == 'BinaryOperator' and w.get('op') == '=' and A.strip_casts(w['ch'][0])['k'] == 'MemberExpr' and A.strip_casts(w['ch'][0]).get('n') == '_curOutput':
+                if any(x.is_call() and (x.get('q') or '') == 'GetNextPointer' for x in A.walk_through_locals(f, w['ch'][1])):
+                    adv.append(w)
+        if not adv:
+            continue
+        frees_gw = any(c.is_call() and (c.get('q') or '') in ('MMFree', 'MFree', 'free') and c.args() and A.strip_casts(c.args()[0]).get('d') in set(p_['d'] for p_ in f.params) for c in f.walk())
+        if frees_gw:
+            continue
+        n += 1
+        ok = False
+        for w in f.walk():
+            if w['k'] == 'BinaryOperator' and w.get('op') == '=' and A.strip_casts(w['ch'][0])['k'] == 'MemberExpr' and A.strip_casts(w['ch'][0]).get('n') == '_outputTail':
+                r0 = A.strip_casts(w['ch'][1])
+                if not (r0['k'] in ('GNUNullExpr', 'CXXNullPtrLiteralExpr') or r0.get('v') == 0):
+                    continue
+                for (cn, t) in G.atoms_at(f, w):
+                    z = A.zero_test(cn, t)
+                    nul = None
+                    if z is not None and z[1]:
+                        nul = z[0]
+                    else:
+                        n0, pol = P.strip_not(cn, t)
+                        if not pol:
+                            nul = n0
+                    if nul is not None and any(x.is_call() and (x.get('q') or '') == 'GetNextPointer' for x in A.walk_through_locals(f, nul)):
+                        ok = True
+        res.ob('QUEUE-ENDS', f.where(adv[0]), '%s: _outputTail is cleared when the last buffer of the output list has been sent' % f.q, ok, function=f.q, key='QUEUE-ENDS|%s' % f.q,
+               message='%s advances _curOutput to the freed buffer\'s next-pointer without clearing _outputTail when that pointer is NULL: after the queue has drained, _outputTail points at freed '
+                       'memory, the next MGAddOutgoingMessage() links the new buffer behind it and leaves _curOutput NULL, and that Message and all later ones are never sent' % f.q)
+    if n < 1:
+        raise AnalysisBroken('QUEUE-ENDS: no function advancing _curOutput found in MiniMessageGateway.c')
+
+
+def codec_direction_rule(res, fx):
+    """each direction of a MessageIOGateway has its own zlib stream: the input path touches only _recvCodec, the output path only _sendCodec"""
+    res.rule('CODEC-DIRECTION', 'MessageIOGateway: functions of the input path (UnflattenHeaderAndMessage, DoInputImplementation, GetReceiveCodec) never name _sendCodec, functions of the output path '
+                                '(FlattenHeaderAndMessage*, DoOutputImplementation, GetSendCodec) never name _recvCodec', floor=2)
+    n = 0
+    for f in sorted((g for g in fx.funcs.values() if g.full and g.q.startswith('muscle::MessageIOGateway::')), key=lambda g: (g.file, g.line)):
+        short = f.q.split('::')[-1]
+        side = 'in' if re.search(r'^(Unflatten|DoInput|GetReceiveCodec|ReceiveMoreData)', short) else ('out' if re.search(r'^(Flatten|DoOutput|GetSendCodec|SendMoreData)', short) else None)
+        if side is None:
+            continue
+        uses = [x for x in f.walk() if x['k'] == 'MemberExpr' and x.get('n') in ('_sendCodec', '_recvCodec')]
+        if not uses:
+            continue
+        n += 1
+        wrong = [x for x in uses if x.get('n') == ('_sendCodec' if side == 'in' else '_recvCodec')]
+        res.ob('CODEC-DIRECTION', f.where(wrong[0]) if wrong else f.where(), '%s uses only the codec of its own direction' % short, not wrong, function=f.q, key='CODEC-DIRECTION|%s' % f.q,
+               message='%s (%s path) uses %s: both directions then share one zlib stream object, and GetCodec() re-creates it whenever the two peers use different levels — the dependent '
+                       'deflate/inflate state of the other direction is thrown away, the peer\'s Inflate() fails and the rest of the stream is lost' % (f.q, 'input' if side == 'in' else 'output', wrong[0].get('n') if wrong else ''))
+    if n < 2:
+        raise AnalysisBroken('CODEC-DIRECTION: only %d functions using the codec members found' % n)
 
 
 def stream_carry_rule(res, fx):
@@ -536,6 +601,15 @@ def run(res, tier):
         res.ob('FRAME', hs[0].where(), 'MessageIOGateway::GetHeaderSize() == 8', v == 8, how=str(v), function=hs[0].q, key='FRAME|GetHeaderSize', message='GetHeaderSize() is %s, the frame is two 32-bit words' % v)
     resume_offset_rule(res, fx)
     stale_cursor_rule(res, fx)
+    queue_ends_rule(res, fx)
+    codec_direction_rule(res, fx)
+    # a frame length decoded as a signed narrow integer must not be sign-extended into the unsigned size it is used as (the rule itself lives with TAINT in C02; here the source is
+    # recognised syntactically: a value produced by one of the byte-order decoding helpers)
+    from .C02 import sign_extend_sites
+    res.rule('SIGN-EXTEND', 'in the gateway input paths a value decoded from the header bytes as a signed integer is not passed to a wider unsigned parameter (length, size) unless a dominating test says it is >= 0', floor=0)
+    dec = lambda a: any(x.is_call() and re.search(r'(EndianConverter::Import|muscleCopyIn|MuscleX86SwapInt|B_SWAP_|ENDIAN_TO_HOST)', x.get('q') or '') for x in a.walk())
+    for g_ in sorted((g_ for g_ in fx.funcs.values() if g_.full and re.search(r'^iogateway/', g_.file)), key=lambda g_: (g_.file, g_.line)):
+        sign_extend_sites(res, fx, None, g_, 'SIGN-EXTEND', is_src=dec)
     stream_carry_rule(res, fx)
     recv_capacity_rule(res, fx)
     codec_step_rule(res, fx)
